@@ -5,7 +5,7 @@ ENGINES = [
          kind_free_text="CrossHair 0.0.110 (`crosshair check --report_all`) on contracts in harness/xsplit/contracts.py: symbolic Unicode strings"),
     dict(name="z3-direct", path="harness/q_slurm.py", serves_properties=["C18"],
          kind_free_text="direct z3 sequence/regex queries over unbounded strings generated from the live objects of /repo"),
-    dict(name="jsym", path="jsym/", serves_properties=["C01", "C02", "C03", "C04", "C05", "C06", "C07", "C09", "C12", "C13", "C14", "C15", "C16", "C17", "C18", "C19", "C20"],
+    dict(name="jsym", path="jsym/", serves_properties=["C01", "C02", "C03", "C04", "C05", "C06", "C07", "C08", "C09", "C12", "C13", "C14", "C15", "C16", "C17", "C18", "C19", "C20"],
          kind_free_text="own concolic executor on z3: proxy objects for ints/reals/bools, every branch decided by the solver, replay-based DFS to exhaustion, prefix-sharded over 16 processes; real JADE code runs natively"),
 ]
 
@@ -113,5 +113,10 @@ CLAIMS["C19"] = dict(
     note="The reference is POSIX word splitting and quote removal as Python's shlex defines its POSIX mode; $, back-quote and newline escapes of a real sh are outside the claim (JADE documents 'shell characters not allowed'). The configured command is the one stored by the job model (pydantic strips outer whitespace). Windows (posix=False branch) and job names containing ',' or whitespace are outside the claim. CrossHair could not exhaust len 2 through the JADE path in 600 s; that bound is therefore 1.",
     technique="bounded symbolic execution with z3: jsym for character-by-character commands and exit codes, CrossHair for symbolic Unicode strings", engine="jsym+crosshair")
 
+CLAIMS["C08"] = dict(
+    text="H-results: real ResultsAggregator.append/_append_result/process_results/_process_results/move_results/_move_results/list_results on real files; actors are virtual processes (<=2 runners on the same or different batches with <=2 appends each, a collector with <=2 rounds) pre-empted by the solver at every lock acquire, lock release, write-open, remove and rename; every interleaving of the bounded scenario is explored: no result reported to two rounds, collected + still-in-node-files = appended at quiescence, after a final collection every result was reported exactly once, the consolidated file parses, holds exactly the rows written with every field intact and exactly one header, node files always start with their header.",
+    note="filelock.SoftFileLock is the marker-file model on the same real files (markers never broken); POSIX append atomicity of one write() is assumed (torn writes outside the claim); crashes belong to C11; more actors than stated are outside the bound.",
+    technique="bounded symbolic execution with z3 (jsym): the schedule is a vector of solver variables, exhaustive exploration of interleavings of the real code")
+
 _TODO = "check not built yet in this session (planned in DESIGN.md section 6); not claimed until it exists"
-NOT_APPLICABLE = {p: _TODO for p in ["C08", "C10", "C11"]}
+NOT_APPLICABLE = {p: _TODO for p in ["C10", "C11"]}
